@@ -71,6 +71,12 @@ class Ctx:
         self.t0 = time.time()
         self._case_counter = 0
         self.deadline = None
+        self.resume_after = None      # skip cases up to and including this id
+        self._resuming = False
+        self.progress_path = None
+        self.checkpoint_path = None
+        self._last_ckpt = 0.0
+        self.ckpt_interval = 1.0
 
     # -- partitioning -----------------------------------------------------
     def mine(self, i):
@@ -78,6 +84,34 @@ class Ctx:
 
     def want(self, case_id):
         return self.only_case is None or str(case_id) == str(self.only_case)
+
+    def start(self, case_id):
+        """Case gate for workloads that may kill the process (sanitizer
+        runs): honours replay / resume filters, records the case id in the
+        progress file *before* the case runs and checkpoints the counters."""
+        cid = str(case_id)
+        if self._resuming:
+            if cid == str(self.resume_after):
+                self._resuming = False
+            return False
+        if not self.want(cid):
+            return False
+        if self.checkpoint_path and time.time() - self._last_ckpt >= self.ckpt_interval:
+            self.checkpoint()
+        if self.progress_path:
+            with open(self.progress_path, "w") as fh:
+                fh.write(cid)
+        return True
+
+    def checkpoint(self):
+        self._last_ckpt = time.time()
+        d = self.dump()
+        d["status"] = "checkpoint"
+        d["error"] = None
+        tmp = self.checkpoint_path + ".tmp"
+        with open(tmp, "w") as fh:
+            json.dump(d, fh)
+        os.replace(tmp, self.checkpoint_path)
 
     def rng(self, *key):
         ks = [self.seed & 0xFFFFFFFF]
